@@ -152,3 +152,291 @@ Proof.
   - unfold init_end, get_thread. rewrite Ht, Hm. reflexivity.
   - unfold ret, ret_ok, get_thread. rewrite Ht, Hm. rewrite Z.eqb_refl. reflexivity.
 Qed.
+
+(** ---- preservation ---- *)
+
+(** a step that moves a non-runner to another non-runner pc and changes nothing else *)
+Lemma inv_set_pc_plain s t me p : Inv s -> thr_at s t me -> runner me = false ->
+  runner {| main := p |} = false ->
+  (forall r, p = Done r -> r = 0 /\ word s = 2) -> (p = WaitRead -> word s <> 0) ->
+  Inv (set_pc s t p).
+Proof.
+  intros [Kw Kr Kru Kre K0 K1 K2 Kd Kwt] Ht Hnr Hnp Hd Hwt. unfold thr_at in *.
+  constructor; unfold thr_at, set_pc; cbn [word thr runs fins rets]; auto.
+  - intros u z H Hz. inv_upd H as N; [congruence | eauto].
+  - intros u1 z1 u2 z2 H1 H2 Hz1 Hz2. inv_upd H1 as N1; [congruence|]. inv_upd H2 as N2; [congruence|]. eauto.
+  - intros E. destruct (Kre E) as (u & z & H & Hz). exists u, z. split; auto.
+    rewrite upd_nth_ne; auto. intros ->. rewrite Ht in H. injection H as <-. congruence.
+  - intros u z r H Hz. inv_upd H as N; [cbn in Hz; auto | eauto].
+  - intros u z H Hz. inv_upd H as N; [cbn in Hz; auto | eauto].
+Qed.
+
+Lemma inv_cas_ok s t me : Inv s -> thr_at s t me -> main me = Cas -> word s = 0 ->
+  Inv (set_pc (set_word s 1) t InitPre).
+Proof.
+  intros [Kw Kr Kru Kre K0 K1 K2 Kd Kwt] Ht Hm Hw. unfold thr_at in *.
+  destruct (K0 Hw) as (Hr & Hf & Hrt).
+  assert (NoRun : forall u z, nth_error (thr s) u = Some z -> runner z = true -> False).
+  { intros u z H Hz. destruct (Kr _ _ H Hz) as (E & _). lia. }
+  constructor; unfold thr_at, set_pc, set_word; cbn [word thr runs fins rets]; auto; try lia.
+  - intros u z H Hz. inv_upd H as N; [|exfalso; eauto]. cbn. auto.
+  - intros u1 z1 u2 z2 H1 H2 Hz1 Hz2. inv_upd H1 as N1; inv_upd H2 as N2; auto; exfalso; eauto.
+  - intros _. exists t. eexists. split; [eapply upd_nth_eq; eauto | reflexivity].
+  - intros u z r H Hz. inv_upd H as N; [discriminate|]. destruct (Kd _ _ _ H Hz) as (_ & E). lia.
+Qed.
+
+Lemma inv_done s t me : Inv s -> thr_at s t me -> main me = AtDone ->
+  Inv (set_pc (set_word s 2) t (Done 0)).
+Proof.
+  intros [Kw Kr Kru Kre K0 K1 K2 Kd Kwt] Ht Hm. unfold thr_at in *.
+  assert (Rme : runner me = true) by (unfold runner; rewrite Hm; reflexivity).
+  destruct (Kr _ _ Ht Rme) as (Hw & Hr & Hf). unfold started, finished in *. rewrite Hm in *. cbn in Hr, Hf.
+  assert (NoRun : forall u z, nth_error (thr s) u = Some z -> runner z = true -> u <> t -> False).
+  { intros u z H Hz N. apply N. eapply Kru; eauto. }
+  constructor; unfold thr_at, set_pc, set_word; cbn [word thr runs fins rets]; auto; try lia.
+  - intros u z H Hz. inv_upd H as N; [discriminate | exfalso; eauto].
+  - intros u1 z1 u2 z2 H1 H2 Hz1 Hz2. inv_upd H1 as N1; [discriminate | exfalso; eauto].
+  - intros u z r H Hz. inv_upd H as N.
+    + cbn in Hz. injection Hz as <-. auto.
+    + destruct (Kd _ _ _ H Hz) as (E & _). auto.
+Qed.
+
+Lemma inv_ibegin s t me : Inv s -> thr_at s t me -> main me = InitPre ->
+  Inv {| word := word s; thr := upd (thr s) t {| main := InInit |};
+         runs := S (runs s); fins := fins s; rets := rets s |}.
+Proof.
+  intros [Kw Kr Kru Kre K0 K1 K2 Kd Kwt] Ht Hm. unfold thr_at in *.
+  assert (Rme : runner me = true) by (unfold runner; rewrite Hm; reflexivity).
+  destruct (Kr _ _ Ht Rme) as (Hw & Hr & Hf). unfold started, finished in *. rewrite Hm in *. cbn in Hr, Hf.
+  assert (NoRun : forall u z, nth_error (thr s) u = Some z -> runner z = true -> u <> t -> False).
+  { intros u z H Hz N. apply N. eapply Kru; eauto. }
+  constructor; unfold thr_at; cbn [word thr runs fins rets]; auto; try lia.
+  - intros u z H Hz. inv_upd H as N; [|exfalso; eauto]. cbn; repeat split; auto; lia.
+  - intros u1 z1 u2 z2 H1 H2 Hz1 Hz2. inv_upd H1 as N1; inv_upd H2 as N2; auto; exfalso; eauto.
+  - intros _. exists t. eexists. split; [eapply upd_nth_eq; eauto | reflexivity].
+  - intros u z r H Hz. inv_upd H as N; [discriminate | eauto].
+Qed.
+
+Lemma inv_iend s t me : Inv s -> thr_at s t me -> main me = InInit ->
+  Inv {| word := word s; thr := upd (thr s) t {| main := AtDone |};
+         runs := runs s; fins := S (fins s); rets := rets s |}.
+Proof.
+  intros [Kw Kr Kru Kre K0 K1 K2 Kd Kwt] Ht Hm. unfold thr_at in *.
+  assert (Rme : runner me = true) by (unfold runner; rewrite Hm; reflexivity).
+  destruct (Kr _ _ Ht Rme) as (Hw & Hr & Hf). unfold started, finished in *. rewrite Hm in *. cbn in Hr, Hf.
+  assert (NoRun : forall u z, nth_error (thr s) u = Some z -> runner z = true -> u <> t -> False).
+  { intros u z H Hz N. apply N. eapply Kru; eauto. }
+  constructor; unfold thr_at; cbn [word thr runs fins rets]; auto; try lia.
+  - intros u z H Hz. inv_upd H as N; [|exfalso; eauto]. cbn; repeat split; auto; lia.
+  - intros u1 z1 u2 z2 H1 H2 Hz1 Hz2. inv_upd H1 as N1; inv_upd H2 as N2; auto; exfalso; eauto.
+  - intros _. exists t. eexists. split; [eapply upd_nth_eq; eauto | reflexivity].
+  - intros u z r H Hz. inv_upd H as N; [discriminate | eauto].
+Qed.
+
+Lemma inv_ret s t me r : Inv s -> thr_at s t me -> main me = Done r ->
+  Inv {| word := word s; thr := upd (thr s) t {| main := Idle |};
+         runs := runs s; fins := fins s; rets := S (rets s) |}.
+Proof.
+  intros [Kw Kr Kru Kre K0 K1 K2 Kd Kwt] Ht Hm. unfold thr_at in *.
+  destruct (Kd _ _ _ Ht Hm) as (Hr0 & Hw).
+  constructor; unfold thr_at; cbn [word thr runs fins rets]; auto; try lia.
+  - intros u z H Hz. inv_upd H as N; [discriminate | eauto].
+  - intros u1 z1 u2 z2 H1 H2 Hz1 Hz2. inv_upd H1 as N1; [discriminate|]. inv_upd H2 as N2; [discriminate | eauto].
+  - intros u z r' H Hz. inv_upd H as N; [discriminate | eauto].
+Qed.
+
+Lemma inv_step s a s' : Inv s -> step s a = Some s' -> Inv s'.
+Proof.
+  destruct a as [t e]. intros I H. apply step_inv in H.
+  destruct H as [me Ht Hm|me Ht Hm Hw|me Ht Hm Hw|me Ht Hm Hw|me Ht Hm Hw|me Ht Hm|me Ht Hm Hw
+                 |me Ht Hm Hw|me Ht Hm|me Ht Hm|me Ht Hm|me r Ht Hm];
+    try (eapply inv_set_pc_plain; eauto;
+         try (unfold runner; rewrite Hm; reflexivity); try discriminate; auto;
+         try (intros r E; injection E as <-; auto);
+         try (intros _; eapply (k_wait I); eauto); fail).
+  - eapply inv_cas_ok; eauto.
+  - eapply inv_done; eauto.
+  - eapply inv_ibegin; eauto.
+  - exact I.
+  - eapply inv_iend; eauto.
+  - eapply inv_ret; eauto.
+Qed.
+
+Theorem reach_inv s : reach s -> Inv s.
+Proof.
+  apply invariant_rule.
+  - intros s0 [n ->]. apply inv_init.
+  - intros s0 a s1. apply inv_step.
+Qed.
+
+Lemma every_schedule_reach n sched : reach (run step sched (init_state n)).
+Proof. apply run_reachable. apply reach_init. exists n. reflexivity. Qed.
+
+Lemma reach_is_run s : reach s -> exists n sched, run step sched (init_state n) = s.
+Proof.
+  intros R. destruct (reachable_run R) as (s0 & sched & (n & ->) & E). exists n, sched. exact E.
+Qed.
+
+(** ---- the lemmas behind the C14 theorems ---- *)
+
+Lemma b2n_le1 b : (b2n b <= 1)%nat.
+Proof. destruct b; cbn; lia. Qed.
+
+(** the init routine is begun at most once, completed at most as often as begun, and once any call
+    has returned (or is about to return) it has been begun and completed exactly once *)
+Lemma runs_once s : reach s ->
+  (runs s <= 1)%nat /\ (fins s <= runs s)%nat /\
+  (((0 < rets s)%nat \/ exists t x r, thr_at s t x /\ main x = Done r) ->
+   runs s = 1%nat /\ fins s = 1%nat).
+Proof.
+  intros R. apply reach_inv in R. destruct R as [Kw Kr Kru Kre K0 K1 K2 Kd Kwt].
+  destruct Kw as [W|[W|W]].
+  - destruct (K0 W) as (A & B & C). split; [lia|]. split; [lia|].
+    intros [H|(t & x & r & H & Hm)]; [lia|]. destruct (Kd _ _ _ H Hm) as (_ & E). lia.
+  - destruct (Kre W) as (t & x & H & Hr). destruct (Kr _ _ H Hr) as (_ & A & B).
+    assert (fins s <= runs s)%nat.
+    { rewrite A, B. unfold started, finished. destruct (main x); cbn; lia. }
+    split; [rewrite A; apply b2n_le1|]. split; auto.
+    intros [Hp|(t' & x' & r & H' & Hm)]; [specialize (K1 W); lia|].
+    destruct (Kd _ _ _ H' Hm) as (_ & E). lia.
+  - destruct (K2 W) as (A & B). split; [lia|]. split; [lia|]. auto.
+Qed.
+
+(** a caller is at its return point only when the control is completed, which implies that the single
+    execution of the init routine has ended *)
+Lemma done_after_complete s t x r : reach s -> thr_at s t x -> main x = Done r ->
+  r = 0 /\ word s = 2 /\ runs s = 1%nat /\ fins s = 1%nat.
+Proof.
+  intros R H Hm. apply reach_inv in R. destruct (k_done R _ _ _ H Hm) as (A & B).
+  destruct (k_2 R B) as (C & D). auto.
+Qed.
+
+Lemma ret_after_complete s t v s' : reach s -> step s (t, ERet v) = Some s' ->
+  v = 0 /\ word s = 2 /\ runs s = 1%nat /\ fins s = 1%nat /\ word s' = 2 /\ rets s' = S (rets s).
+Proof.
+  intros R H. apply step_inv in H. inversion H as [| | | | | | | | | | |me r Ht Hm]; subst.
+  destruct (done_after_complete _ _ _ _ R Ht Hm) as (A & B & C & D). cbn. auto 10.
+Qed.
+
+(** the state word changes only 0 -> 1 (by the winning CAS, which makes the thread the runner) and
+    1 -> 2 (by the once.done step of the runner, after the last step of the init routine) *)
+Lemma word_changes s t e s' : reach s -> step s (t, e) = Some s' -> word s' <> word s ->
+  e = ETick /\ exists me, thr_at s t me /\
+  ((word s = 0 /\ word s' = 1 /\ main me = Cas /\ thr_at s' t {| main := InitPre |} /\ runs s = 0%nat) \/
+   (word s = 1 /\ word s' = 2 /\ main me = AtDone /\ thr_at s' t {| main := Done 0 |} /\
+    runs s = 1%nat /\ fins s = 1%nat)).
+Proof.
+  intros R H D. apply reach_inv in R. apply step_inv in H.
+  destruct H as [me Ht Hm|me Ht Hm Hw|me Ht Hm Hw|me Ht Hm Hw|me Ht Hm Hw|me Ht Hm|me Ht Hm Hw
+                 |me Ht Hm Hw|me Ht Hm|me Ht Hm|me Ht Hm|me r Ht Hm];
+    unfold set_pc, set_word in *; cbn [word thr] in *; try (exfalso; apply D; reflexivity).
+  - split; auto. exists me. split; auto. left. destruct (k_0 R Hw) as (A & _).
+    repeat split; auto. unfold thr_at. cbn [thr]. eapply upd_nth_eq; eauto.
+  - assert (Rme : runner me = true) by (unfold runner; rewrite Hm; reflexivity).
+    destruct (k_run R _ _ Ht Rme) as (A & B & C). unfold started, finished in *. rewrite Hm in *. cbn in B, C.
+    split; auto. exists me. split; auto. right.
+    repeat split; auto. unfold thr_at. cbn [thr]. eapply upd_nth_eq; eauto.
+Qed.
+
+(** from completed, every step of every thread leaves the control completed, runs nothing, and moves
+    the acting thread along Idle -call-> Read -once.read-> WaitRead -once.wait.read-> Done 0 -ret-> Idle
+    (a thread that had read 0 long ago fails its CAS): no CAS succeeds, no init step exists *)
+Lemma completed_steps s t e s' : reach s -> word s = 2 -> step s (t, e) = Some s' ->
+  word s' = 2 /\ runs s' = runs s /\ fins s' = fins s /\
+  (forall u, u <> t -> nth_error (thr s') u = nth_error (thr s) u) /\
+  exists x x', thr_at s t x /\ thr_at s' t x' /\
+    ((main x = Idle /\ e = ECall /\ main x' = Read) \/
+     (main x = Read /\ e = ETick /\ main x' = WaitRead) \/
+     (main x = Cas /\ e = ETick /\ main x' = WaitRead) \/
+     (main x = WaitRead /\ e = ETick /\ main x' = Done 0) \/
+     (main x = Done 0 /\ e = ERet 0 /\ main x' = Idle /\ rets s' = S (rets s))).
+Proof.
+  intros R W H. apply reach_inv in R. apply step_inv in H.
+  assert (NoRun : forall me, thr_at s t me -> runner me = true -> False).
+  { intros me Ht Hr. destruct (k_run R _ _ Ht Hr) as (E & _). lia. }
+  destruct H as [me Ht Hm|me Ht Hm Hw|me Ht Hm Hw|me Ht Hm Hw|me Ht Hm Hw|me Ht Hm|me Ht Hm Hw
+                 |me Ht Hm Hw|me Ht Hm|me Ht Hm|me Ht Hm|me r Ht Hm];
+    try lia;
+    try (exfalso; eapply NoRun; eauto; unfold runner; rewrite Hm; reflexivity);
+    unfold set_pc, thr_at in *; cbn [word thr runs fins rets];
+    (split; [auto|]); (split; [auto|]); (split; [auto|]);
+    (split; [intros u Hu; apply upd_nth_ne; auto|]);
+    exists me; eexists; (split; [eauto|]); (split; [eapply upd_nth_eq; eauto|]); cbn; auto 10.
+  destruct (k_done R _ _ _ Ht Hm) as (-> & _). auto 10.
+Qed.
+
+Lemma upd_upd {A} (l : list A) t a b : upd (upd l t a) t b = upd l t b.
+Proof.
+  revert t; induction l as [|y l IH]; intros [|t]; cbn; auto. f_equal. auto.
+Qed.
+
+(** a call issued when the control is completed executes exactly the POINTs once.read and
+    once.wait.read (never once.cas); its four steps are enabled and, run back to back, leave the state
+    unchanged except for the return count.  Interleaved steps of other threads do not matter: by
+    [completed_steps] they keep the control completed and do not touch this thread *)
+Lemma later_call_path s t : reach s -> word s = 2 -> thr_at s t {| main := Idle |} ->
+  exists s1 s2 s3,
+    step s (t, ECall) = Some s1 /\ label s1 t = "once.read"%string /\
+    step s1 (t, ETick) = Some s2 /\ label s2 t = "once.wait.read"%string /\
+    step s2 (t, ETick) = Some s3 /\ label s3 t = ""%string /\
+    step s3 (t, ERet 0) =
+      Some {| word := word s; thr := thr s; runs := runs s; fins := fins s; rets := S (rets s) |}.
+Proof.
+  intros R W Ht. unfold thr_at in Ht.
+  exists (set_pc s t Read), (set_pc s t WaitRead), (set_pc s t (Done 0)).
+  assert (E1 : nth_error (upd (thr s) t {| main := Read |}) t = Some {| main := Read |})
+    by (eapply upd_nth_eq; eauto).
+  assert (E2 : nth_error (upd (thr s) t {| main := WaitRead |}) t = Some {| main := WaitRead |})
+    by (eapply upd_nth_eq; eauto).
+  assert (E3 : nth_error (upd (thr s) t {| main := Done 0 |}) t = Some {| main := Done 0 |})
+    by (eapply upd_nth_eq; eauto).
+  unfold step, call, tick, ret, ret_ok, label, get_thread, set_pc. cbn [word thr runs fins rets].
+  rewrite Ht, E1, E2, E3. cbn [main]. rewrite W. cbn.
+  rewrite !upd_upd. rewrite (upd_same _ _ _ Ht). repeat split; reflexivity.
+Qed.
+
+(** in progress => the runner exists, is unique, and is inside the init routine or about to enter or
+    leave it; a waiting caller implies that the CAS has been won *)
+Lemma in_progress_runner s : reach s -> word s = 1 ->
+  exists t x, thr_at s t x /\ runner x = true /\
+    (forall u z, thr_at s u z -> runner z = true -> u = t) /\ rets s = 0%nat.
+Proof.
+  intros R W. apply reach_inv in R. destruct (k_run_e R W) as (t & x & H & Hr).
+  exists t, x. split; auto. split; auto. split.
+  - intros u z Hu Hz. eapply (k_run_u R); eauto.
+  - exact (k_1 R W).
+Qed.
+
+Lemma waiter_not_in_vain s t x : reach s -> thr_at s t x -> main x = WaitRead -> word s = 1 \/ word s = 2.
+Proof.
+  intros R H Hm. apply reach_inv in R. pose proof (k_wait R _ _ H Hm). destruct (k_word R) as [A|[A|A]]; auto. lia.
+Qed.
+
+Lemma runner_means_in_progress s t x : reach s -> thr_at s t x -> runner x = true ->
+  word s = 1 /\ runs s = b2n (started x) /\ fins s = b2n (finished x).
+Proof. intros R. apply reach_inv in R. exact (k_run R t x). Qed.
+
+(** the runner is never blocked by the control: whatever the others do, its (at most three)
+    remaining steps are enabled and lead to completed *)
+Lemma runner_completes s : reach s -> word s = 1 ->
+  exists t, word (run step [(t, EInitBegin); (t, EInitEnd); (t, ETick)] s) = 2.
+Proof.
+  intros R W. apply reach_inv in R. destruct (k_run_e R W) as (t & x & H & Hr). exists t.
+  unfold thr_at in H. unfold run. cbn [fold_left]. unfold exec1 at 3.
+  assert (AtDoneStep : forall s0, nth_error (thr s0) t = Some {| main := AtDone |} ->
+            word (exec1 step s0 (t, ETick)) = 2).
+  { intros s0 H0. unfold exec1, step, tick, get_thread. rewrite H0. reflexivity. }
+  unfold runner in Hr. destruct x as [p]. cbn [main] in Hr. destruct p; try discriminate.
+  - (* InitPre *)
+    unfold step at 3, init_begin, get_thread. rewrite H. cbn [main].
+    unfold exec1 at 2. unfold step, init_end, get_thread. cbn [thr]. rewrite (upd_nth_eq _ _ _ _ H). cbn [main].
+    apply AtDoneStep. cbn [thr]. rewrite upd_upd. eapply upd_nth_eq; eauto.
+  - (* InInit *)
+    unfold step at 3, init_begin, get_thread. rewrite H. cbn [main].
+    unfold exec1 at 2. unfold step, init_end, get_thread. rewrite H. cbn [main].
+    apply AtDoneStep. cbn [thr]. eapply upd_nth_eq; eauto.
+  - (* AtDone *)
+    unfold step at 3, init_begin, get_thread. rewrite H. cbn [main].
+    unfold exec1 at 2. unfold step, init_end, get_thread. rewrite H. cbn [main].
+    apply AtDoneStep. exact H.
+Qed.
